@@ -35,6 +35,9 @@ if h:
                     "T": "Walk.tree_all vs nametree FromFile.All",
                     "O": "Walk.outline_items vs outline.Decode",
                     "X": "XRefCount.read_xref_stream vs checkXRefStreamDict+decodeXRefStream",
+                    "J": "ObjStmIndex.objstm_find (/N, /First, offset table, member lookup) vs getObjStm/getFromObjStm",
+                    "D": "DecodePath.decode_in (path, depth cap, cache) vs pdf.Decode with a recursive typed decoder",
+                    "N": "Nest.read_object (nesting depth cap) vs scanner.ReadObject",
                     "G": "ObjStmGet.get_in (no re-entry of object streams) vs Reader.Get of compressed objects",
                 }
                 by = {}
@@ -54,7 +57,7 @@ c.finish(
         "object graphs for the page tree, outline walkers are finite association lists (the cross-reference table is finite); reference following and the name tree walker need no finiteness (depth caps)",
     ],
     trusted=[
-        "hand-written Gallina models coq/C05/{Refill,PrevChain,Resolve,Walk,XRefCount,ObjStmGet}.v of scanner.go, xref.go, resolve.go, reader.go (get/getFromObjStm), container.go (GetFilters), pagetree/read.go, internal/pdftree/streaming.go, outline/outline.go - tied by correspondence on generated cases, constants by translation (Gen_C05, Gen_Limits, Gen_Consts)",
+        "hand-written Gallina models coq/C05/{Refill,PrevChain,Resolve,Walk,XRefCount,ObjStmGet,ObjStmIndex,Nest,DecodePath}.v of scanner.go, xref.go, resolve.go, reader.go (get/getFromObjStm), container.go (GetFilters), pagetree/read.go, internal/pdftree/streaming.go, outline/outline.go - tied by correspondence on generated cases, constants by translation (Gen_C05, Gen_Limits, Gen_Consts)",
         "/repo/verif_c05.go (build tag verif): calls the unexported scanner operations and checkXRefStreamDict/decodeXRefStream",
         "watchdog, runtime.MemStats and runtime.NumGoroutine readings of harness/c05",
     ],
